@@ -232,10 +232,10 @@ Definition tblocks1 (b : list (nat * list (nat * Q))) : @mt1 trop :=
   map (fun e => (fst e, map trop_of (snd e))) b.
 
 Definition multi_solve_check_trop
-  (x : bool * list (nat * nat) * list nat * bool * list ((nat * nat) * list (list (nat * Q)))
+  (x : list (nat * nat) * list nat * bool * list ((nat * nat) * list (list (nat * Q)))
        * list (nat * list (nat * Q)) * list (nat * list (nat * Q)) * list (nat * Q)) : nat :=
-  let '(star0_is_inf, d, order, tr, a, b, out, u) := x in
-  multi_solve_check_exact (trop_as_coded star0_is_inf) trop_ops teqb tleb
+  let '(d, order, tr, a, b, out, u) := x in
+  multi_solve_check_exact trop_ops trop_ops teqb tleb
     (d, order, tr, tblocks2 a, tblocks1 b, tblocks1 out, map trop_of u).
 Definition multi_solve_check_bool
   (x : list (nat * nat) * list nat * bool * list ((nat * nat) * list (list bool))
